@@ -171,6 +171,28 @@ impl<'a, L> Engine<'a, L> {
         for inode in list_seeds {
             self.mark_list_node(inode);
         }
+        // A list node is rendered inside its parent. If following the parents of a list node
+        // leads back to it (a list that is, directly or through nested lists, one of its own
+        // items), nothing would ever render it: the nodes of such a cycle stay ordinary nodes.
+        let cyclic: Vec<usize> = self
+            .list_node
+            .keys()
+            .copied()
+            .filter(|&start| {
+                let mut current = start;
+                for _ in 0..self.list_node.len() {
+                    match self.list_node.get(&current) {
+                        Some(&parent) if parent == start => return true,
+                        Some(&parent) => current = parent,
+                        None => return false,
+                    }
+                }
+                false
+            })
+            .collect();
+        for inode in cyclic {
+            self.list_node.remove(&inode);
+        }
         // check that candidate compound literals are indeed compound literels
         if self.options.rdf_direction() == Some(RdfDirection::CompoundLiteral) {
             // (a compound literal is rendered in place of the references to it,
